@@ -363,7 +363,8 @@ fn marker_of(text: &str) -> Option<String> {
 fn judge(w: &mut World, dir: &str, history: &[Event]) -> (Option<String>, String) {
     let mut model: BTreeMap<String, (i32, String)> = BTreeMap::new();
     let mut docs: Vec<String> = Vec::new();
-    let mut sent: BTreeMap<(String, i32), String> = BTreeMap::new();
+    // a version number can be sent twice for one document (a re-open may restart at 1): all texts sent under it
+    let mut sent: BTreeMap<(String, i32), Vec<String>> = BTreeMap::new();
     for ev in history {
         if !docs.contains(&ev.doc) {
             docs.push(ev.doc.clone());
@@ -371,14 +372,14 @@ fn judge(w: &mut World, dir: &str, history: &[Event]) -> (Option<String>, String
         match ev.op.as_str() {
             "open" => {
                 model.insert(ev.doc.clone(), (ev.ver, ev.text.clone()));
-                sent.insert((ev.doc.clone(), ev.ver), ev.text.clone());
+                sent.entry((ev.doc.clone(), ev.ver)).or_default().push(ev.text.clone());
             }
             "change" => {
                 let cur = model.get(&ev.doc).map(|x| x.0).unwrap_or(i32::MIN);
                 if ev.ver >= cur {
                     model.insert(ev.doc.clone(), (ev.ver, ev.text.clone()));
                 }
-                sent.insert((ev.doc.clone(), ev.ver), ev.text.clone());
+                sent.entry((ev.doc.clone(), ev.ver)).or_default().push(ev.text.clone());
             }
             _ => {
                 model.remove(&ev.doc);
@@ -428,7 +429,7 @@ fn judge(w: &mut World, dir: &str, history: &[Event]) -> (Option<String>, String
                         }
                     } else if labels != vec![want.clone()] {
                         if problem.is_none() {
-                            problem = Some(format!("document {d}: highest version sent is {ver} ({want}) but completion answers from {labels:?}"));
+                            problem = Some(format!("document {d}: highest version sent in the current session is {ver} ({want}) but completion answers from {labels:?}"));
                         }
                     } else if hov_marker.as_deref() != Some(want.as_str()) && problem.is_none() {
                         problem = Some(format!("document {d}: hover answers {hov_marker:?}, expected {want}"));
@@ -447,19 +448,38 @@ fn judge(w: &mut World, dir: &str, history: &[Event]) -> (Option<String>, String
         let Some(ver) = p["version"].as_i64() else { continue };
         let uri = p["uri"].as_str().unwrap_or("");
         let Some(doc) = docs.iter().find(|d| uri_of(dir, d) == uri) else { continue };
-        let Some(text) = sent.get(&(doc.clone(), ver as i32)) else {
+        let Some(texts) = sent.get(&(doc.clone(), ver as i32)) else {
             if problem.is_none() {
                 problem = Some(format!("publish for {doc} carries version {ver}, which was never sent"));
             }
             continue;
         };
-        let Some(m) = marker_of(text) else { continue };
-        let want = m.replace("marker_", "unknown_");
+        let wants: Vec<String> = texts.iter().filter_map(|t| marker_of(t)).map(|m| m.replace("marker_", "unknown_")).collect();
+        if wants.len() != texts.len() {
+            continue;
+        }
         let msgs: Vec<String> = p["diagnostics"].as_array().map(|a| a.iter().filter_map(|d| d["message"].as_str().map(|s| s.to_string())).collect()).unwrap_or_default();
         let mentions: Vec<&String> = msgs.iter().filter(|m| m.contains("unknown_")).collect();
         // dependency publishes for a document (empty or parse errors) carry no unknown_ marker: only judge analysed ones
-        if !mentions.is_empty() && !mentions.iter().any(|m| m.contains(&want)) && problem.is_none() {
+        if !mentions.is_empty() && !mentions.iter().any(|m| wants.iter().any(|w| m.contains(w.as_str()))) && problem.is_none() {
             problem = Some(format!("diagnostics published for {doc} version {ver} were computed from another text: {mentions:?}"));
+        }
+    }
+    // the last analysed diagnostics of every open document must have been computed from its current text
+    for d in &docs {
+        let Some((ver, text)) = model.get(d) else { continue };
+        let Some(m) = marker_of(text) else { continue };
+        let want = m.replace("marker_", "unknown_");
+        let uri = uri_of(dir, d);
+        let last = published.iter().rev().find(|p| {
+            p["uri"].as_str() == Some(uri.as_str())
+                && p["diagnostics"].as_array().is_some_and(|a| a.iter().any(|x| x["message"].as_str().is_some_and(|s| s.contains("unknown_"))))
+        });
+        if let Some(p) = last {
+            let ok = p["diagnostics"].as_array().is_some_and(|a| a.iter().any(|x| x["message"].as_str().is_some_and(|s| s.contains(&want))));
+            if !ok && problem.is_none() {
+                problem = Some(format!("the last diagnostics published for {d} (current version {ver}) were computed from another text: {}", p["diagnostics"]));
+            }
         }
     }
     // the last analysed publish of the highest version must be consistent too (covered by the loop above)
